@@ -36,41 +36,69 @@ def shape(kind, i, c0, c1):
         ps = [("a", {"typ": "Optional[int]", "doc": "first arg", "default": None}), ("b", {"typ": "int", "doc": "second arg", "default": i})]
     elif kind == 3:
         ps = [("a", {"typ": "Literal['np', 'tf']", "doc": "first arg", "default": "np"}), ("b", {"typ": "int", "doc": "second arg", "default": i})]
+    elif kind == 5:
+        ps = [("a", {"typ": "float", "doc": "first arg", "default": 1e20}), ("b", {"typ": "float", "doc": "second arg", "default": -2.5e-07}),
+              ("c", {"typ": "int", "doc": "third arg", "default": 10 ** 18 + i})]
+    elif kind == 6:
+        ps = [("a", {"typ": "Literal['x', 'y', 'z']", "doc": "first arg", "default": "y" if i > 0 else "z"}), ("b", {"typ": "Optional[str]", "doc": "second arg", "default": None}),
+              ("c", {"typ": "str", "doc": "third arg", "default": "a-b_c"})]
+    elif kind == 7:
+        ps = [("a", {"typ": "int", "doc": "first arg", "default": i}), ("b", {"typ": "float", "doc": "second arg", "default": -0.5}),
+              ("c", {"typ": "bool", "doc": "third arg", "default": False}), ("d", {"typ": "str", "doc": "fourth arg", "default": ""})]
+    elif kind == 8:
+        ps = [("a", {"typ": "Optional[Literal['x', 'y']]", "doc": "first arg", "default": None}), ("b", {"typ": "Optional[int]", "doc": "second arg", "default": i})]
     else:
         ps = [("a", {"typ": "Optional[bool]", "doc": "first arg", "default": i > 0}), ("b", {"typ": "Optional[float]", "doc": "second arg", "default": 0.0 if i < 0 else 2.5}),
               ("c", {"typ": "Optional[str]", "doc": "third arg", "default": "t" if i == 0 else "s"})]
     return {"name": "C", "doc": "Header line.", "type": "static", "params": OrderedDict(ps), "returns": None}
 
 
-def chain(hs, ir0):
+def chain(hs, ir0, edd=False, keep=False):
     ir = ir0
     for n, h in enumerate(hs):
         f = fmt_of(h)
         try:
-            ir = hop(f, ir)
+            ir = hop(f, ir, emit_default_doc=edd, keep_prose=keep)
         except Exception as e:
             return "hop %d (%s) raised %s: %s" % (n + 1, f, type(e).__name__, e)
         d = ir_equiv(ir0, ir, types=True, defaults=True, docs=False, header=False, returns=False, none_is_absent=True)
         if d:
-            return "after hop %d (%s): %s" % (n + 1, " -> ".join(fmt_of(x) for x in hs[:n + 1]), d)
+            return "after hop %d (%s%s): %s" % (n + 1, " -> ".join(fmt_of(x) for x in hs[:n + 1]), ", emit_default_doc=True" if edd else "", d)
     return ""
 
 
-def _chain(k, kind):
+def _chain(k, kind, edd=False, first=None, keep=False):
     def body(i, c0, c1, *hs):
-        return chain(hs, shape(kind, i, c0, c1))
+        return chain(hs if first is None else (first,) + tuple(hs), shape(kind, i, c0, c1), edd, keep)
 
     body.__name__ = "chain_k%d_s%d" % (k, kind)
     return body
 
 
 KINDS = {0: "a:int=i (i in -3..3), b:str='x y'", 1: "a:float=0.5, b:bool", 2: "a:Optional[int]=None, b:int=i", 3: "a:Literal['np','tf']='np', b:int=i",
-         4: "a:Optional[bool]=True/False, b:Optional[float]=0.0/2.5, c:Optional[str]='t'/'s'"}
+         4: "a:Optional[bool]=True/False, b:Optional[float]=0.0/2.5, c:Optional[str]='t'/'s'", 5: "a:float=1e20, b:float=-2.5e-07, c:int=10**18+i",
+         6: "a:Literal['x','y','z']='y'/'z', b:Optional[str]=None, c:str='a-b_c'", 7: "a:int=i, b:float=-0.5, c:bool=False, d:str=''",
+         8: "a:Optional[Literal['x','y']]=None, b:Optional[int]=i"}
+EDD_DOC = "the code emitters also write the default into the prose (emit_default_doc=True) on every hop"
 for _k, _tier, _T in ((2, "quick", 400), (3, "thorough", 3000)):
     for _kind in KINDS:
         _args = dict({"i": R(-3, 3), "c0": R(97, 97), "c1": R(97, 97)}, **{"h%d" % j: R(0, len(FORMATS) - 1) for j in range(_k)})
         ob("C03", "chain.k%d.s%d" % (_k, _kind), _args, tier=_tier, T=_T, tpath=120, funcs=ALLF, assumes=[ADHOC_SHIMS_DOC],
            bound="EVERY sequence of %d hops over %r (%d sequences, solver-enumerated) starting from %s" % (_k, FORMATS, len(FORMATS) ** _k, KINDS[_kind]))(_chain(_k, _kind))
+        if _k == 2:
+            ob("C03", "chain.k2.edd.s%d" % _kind, _args, tier="thorough", T=_T, tpath=120, funcs=ALLF, assumes=[ADHOC_SHIMS_DOC, EDD_DOC],
+               bound="EVERY sequence of 2 hops over %r starting from %s; %s" % (FORMATS, KINDS[_kind], EDD_DOC))(_chain(2, _kind, True))
+KEEP_DOC = "the docstring hop parses with the parser's own default emit_default_doc=True: the 'Defaults to' prose stays in the description and the default is read from it"
+for _kind in KINDS:
+    _args = dict({"i": R(-3, 3), "c0": R(97, 97), "c1": R(97, 97)}, **{"h%d" % j: R(0, len(FORMATS) - 1) for j in range(2)})
+    ob("C03", "chain.k2.keep.s%d" % _kind, _args, pre="h0 == 4 or h1 == 4", tier="quick" if _kind in (2, 5) else "thorough", T=1200, tpath=120, funcs=ALLF, assumes=[ADHOC_SHIMS_DOC, KEEP_DOC],
+       bound="EVERY sequence of 2 hops over %r that visits the docstring format, starting from %s; %s" % (FORMATS, KINDS[_kind], KEEP_DOC))(_chain(2, _kind, False, None, True))
+# length 4: sharded by the first hop (5 shards x 125 sequences), thorough only
+for _kind in (0, 4, 5):
+    for _first in range(len(FORMATS)):
+        _args = dict({"i": R(-1, 1), "c0": R(97, 97), "c1": R(97, 97)}, **{"h%d" % j: R(0, len(FORMATS) - 1) for j in range(3)})
+        ob("C03", "chain.k4.s%d.first_%s" % (_kind, FORMATS[_first]), _args, tier="thorough", T=4000, tpath=120, funcs=ALLF, assumes=[ADHOC_SHIMS_DOC],
+           bound="EVERY sequence of 4 hops starting with %s (125 sequences, solver-enumerated) from %s" % (FORMATS[_first], KINDS[_kind]))(_chain(4, _kind, False, _first))
 
 
 # a parameter WITHOUT default: function shows it as '=None' and the next parser widens the type (finding F14) ----------------
